@@ -58,7 +58,7 @@ from .seqlib import exc_name
 PROPERTY = "C02"
 DRIVER = "TraitsVerif/Driver/Attr.lean"
 PROPS_MODULES = ["TraitsVerif.Props.C02"]
-TRANSLATORS = ["enums", "cattr"]
+TRANSLATORS = ["enums", "cattr", "pywrap"]
 RULE = ("exhaustive histories of length <= 3 (quick) / <= 4 (thorough) of {set v, del, read} over 5-value pools "
         "(equal-not-identical pair, NaN, numpy array, rejected value) with a static, an on_trait_change and an observe "
         "handler attached, for comparison_mode none/identity/equality and Event; plus seeded random cases: 1-15 "
@@ -74,6 +74,12 @@ RULE = ("exhaustive histories of length <= 3 (quick) / <= 4 (thorough) of {set v
         "a case is non-trivial when a handler was called, a value stored or an exception raised; distinct = "
         "distinct canonical output line")
 TRUSTED = [
+    "Generated/WrapProg.lean: the source text of the notifier wrappers (trait_notifiers.py: _change_accepted, "
+    "AbstractStaticChangeNotifyWrapper.__call__, TraitChangeNotifyWrapper.__call__/dispatch/_dispatch_change_event/"
+    "_notify_function_listener/_notify_method_listener; observation: ctrait_prevent_event, TraitEventNotifier.__call__) "
+    "read by harness/translate/pywrap.py (ast, fails closed); the meaning of the calls they make (Model/PyW.lean callFn: "
+    "user handler, == / != tables, _trait(name, 2), exception-handler re-raise flags, tracers None, live weak "
+    "references) is trusted",
     "Generated/AttrProg.lean: the source text of setattr_trait / setattr_event / getattr_trait / default_value_for / "
     "call_notifiers / has_traits_getattro / has_traits_setattro and of the has_notifiers macro, read by "
     "harness/translate/cattr.py (tokenizer + recursive descent, fails closed) into MiniC terms; the meaning of the "
